@@ -629,14 +629,22 @@ class Ref:
             return c
         return self.dec(ft, self._idx(d, i), ctx)
 
-    @staticmethod
-    def _const(ft):
-        """positions rendered as constants: NoneType -> None, Tuple[()] -> ()."""
+    def _const(self, ft):
+        """positions rendered as constants that never read the input: NoneType -> None, Tuple[()] -> (), and
+        fixed tuples / NamedTuples (without defaults) / all-required TypedDicts made only of such positions."""
         s = tast.strip(ft)
         if s == ("none",):
             return None
-        if s[0] == "tuple" and not s[2]:
-            return ()
+        if s[0] == "tuple":
+            items = [self._const(x) for x in s[2]]
+            if all(i is not _MISSING for i in items):
+                return tuple(items)
+        if s[0] == "nt":
+            fields = self.fam.defs[s[1]]["fields"]
+            if not any(f.get("dseed") is not None for f in fields):
+                items = [self._const(f["t"]) for f in fields]
+                if all(i is not _MISSING for i in items):
+                    return self.fam.get(s[1])(*items)
         return _MISSING
 
     def _d_tuple(self, t, d, ctx):
